@@ -384,6 +384,10 @@ def job_c(cases):
 
 
 def run(tier, seed, rep):
+    # histories of several requests on one object under the full fault alphabet (mc/sessions.py)
+    from .. import sessions
+    _ses = sessions.explore_sessions(tier, seed, {'C09'}, light=True)
+    rep.add_many([v for v in _ses.violations if v['prop'] == 'C09'])
     total = Stats()
     # (a)
     ja = []
@@ -435,7 +439,8 @@ def run(tier, seed, rep):
             occ[kk] = occ.get(kk, 0) + v
         total.violations.extend(out)
     rep.add_many(total.violations)
-    cov = dict(states=len(total.states), transitions=len(total.edges), executions=total.executions + nc,
+    cov = dict(session_histories=_ses.executions, session_states=len(_ses.states), session_choice_points=_ses.choice_points,
+               states=len(total.states), transitions=len(total.edges), executions=total.executions + nc,
                traces_validated_against_impl=total.executions + nc,
                fault_script_executions=total.executions - nb, counter_histories=nb, overlapping_call_cases=nd,
                counter_fixpoint_reached_in=f'{fixes}/{len(jb)} configurations (depth bound {depth})',
@@ -454,6 +459,11 @@ def run(tier, seed, rep):
 
 
 def replay(r):
+    if r.get('part') == 'session':
+        from .. import sessions
+        out = sessions.replay(r)
+        out['violations'] = [m for m in out['violations'] if m[0] == 'C09']
+        return out
     if r['part'] == 'a':
         obs = run_a(r['cfg'], Ctx(r['choices']), r['letters'], r['conn'])
         return dict(script=obs.letters, result=[str(x) for x in obs.result[:4]], unhandled=obs.unhandled,
